@@ -1,17 +1,17 @@
 """C04 — ticks are serialised, carry one time each, and time never runs backwards."""
 from . import simprop
 
-MODULES = ["TickitModel.Props.C04", "TickitModel.Props.C01", "TickitModel.Props.C01Live"]
+MODULES = ["TickitModel.Props.C04", "TickitModel.Props.C01", "TickitModel.Props.C01Live", "TickitModel.Props.C04Mono", "TickitModel.Props.C05"]
 THEOREMS = ["one_time_per_tick", "tick_complete", "wake_not_before", "time_monotone", "tick_time_provenance",
-            "within_extent", "finished_iff", "resolved_iff_answered", "tickRun_exists"]
+            "within_extent", "finished_iff", "resolved_iff_answered", "tickRun_exists",
+            "master_wake_not_before", "master_time_monotone", "master_startTick_monotone", "master_times_sorted", "master_past_callback_decreases",
+            "system_callAt_not_past", "nested_tick_callAt_not_past", "answer_callAt_not_past", "sim_wake_not_before", "sim_time_monotone", "tickLevel_once"]
 ANCHORS = ["src/tickit/core/management/ticker.py", "src/tickit/core/management/schedulers/master.py",
            "src/tickit/core/management/schedulers/nested.py", "src/tickit/core/components/system_component.py"]
 TECHNIQUE = "Lean 4 theorems (a tick finishes only when every member of its extent answered, all dispatches carry the tick time, tick times non-decreasing when no callback is in the past) + trace validation of real runs incl. nested ticks inside outer ticks"
 LEVEL_TEXT = ("Theorems: in every run of a tick, `finished` is raised exactly when every member of the extent has answered, each was dispatched once, all "
               "with the tick's time (ticker model, all answer orders); over flat multi-tick histories every pending wakeup is at or after the last tick "
-              "time, so successive tick times never decrease provided no device asks for a callback in the past. PARTIAL: 'inner tick wholly inside the "
-              "outer tick at the same time' and serialisation under interrupts arriving mid-tick are validated on traces of the real code (monitor + "
-              "model comparison), not proved.")
+              "time, so successive tick times never decrease provided no device asks for a callback in the past. Interrupts at ANY point (Props/C04Mono): in the master bookkeeping transition system, where interrupts may arrive before, during and after ticks and a tick can only start when none is running, for every history whose interrupt stamps and callback requests are not in the past the ticker time never decreases (master_time_monotone, master_times_sorted; a checked history with a past callback shows the hypothesis is needed). Through nesting (whole-simulation model, any depth, callbacks and interrupt stimuli): every observation of a tick at any depth carries the tick's time (tickLevel_once: the inner tick lies inside the outer dispatch, at the same time); a system component never answers with a callback before the tick time, because every inner wakeup that is due is served (system_callAt_not_past, nested_tick_callAt_not_past); hence the tick times of every run of the whole-simulation model are non-decreasing provided no device asks to be called back in the past in that run (sim_time_monotone). Validated rather than proved: that the real asyncio schedule serialises ticks the way the transition system does (monitor on Ticker entry/exit over all generated runs, races between sleep expiry and interrupts with per-iteration real-time cost, callbacks overdue when an interrupt arrives).")
 LEVEL_NOTE = "Trusts: Lean kernel; hand-written models; nesting and interrupt timing carried by trace validation."
 ASSUMPTIONS = ["no device asks to be called back in the past (for monotonicity)"]
 MON = ("ticker", "tick_times", "device_order")
@@ -48,6 +48,15 @@ def run(tier, seed, drv):
         run_ = run_scenario(scn, bus="sync")
         res.case(SC.scn_key(scn), nontrivial=True)
         res.count("race-scenarios")
+        SC.check_run(scn, run_, drv, res, monitors_on=MON, corr=("ticker",), case_extra={"bus": "sync"})
+    # callbacks that are overdue when an interrupt arrives (real time passes while the loop iterates): a system
+    # is then ticked later than several of its inner wakeups; it must serve all of them and never answer
+    # with a callback in the past
+    from .c06 import overdue_scenarios
+    for scn in overdue_scenarios(tier):
+        run_ = run_scenario(scn, bus="sync")
+        res.case(SC.scn_key(scn), nontrivial=True)
+        res.count("overdue-callbacks")
         SC.check_run(scn, run_, drv, res, monitors_on=MON, corr=("ticker",), case_extra={"bus": "sync"})
     return res
 
